@@ -43,7 +43,23 @@ def check_rotation(ctx, case):
 def _check_rotation(ctx, case):
     shape = S.from_text(case["shape"])
     family = case["family"]
-    root, nodes = S.build(shape, _maker(family))
+    make = _maker(family)
+    root, nodes = S.build(shape, make)
+    if case.get("twin"):
+        # two sibling subtrees whose nodes carry the SAME ids: clone() keeps ids (the distributive rule inserts such clones),
+        # so a re-link that finds its slot by id instead of by object picks the wrong one
+        twin = root.clone()
+        twin_nodes = [a for a, _ in S.naive(twin, "preorder")]
+        top = make("both")
+        if case["twin"] == "L":
+            top.set_left(twin), top.set_right(root)
+        else:
+            top.set_left(root), top.set_right(twin)
+        nodes = [top] + nodes + twin_nodes
+        if len(twin_nodes) * 2 + 1 != len(nodes) or S.link_audit(top, nodes):
+            ctx.count("twin-precondition-failed")  # clone() itself is C13's business
+            return
+        ctx.count("twin-trees")
     ctx.sample(case)
     for idx in case["rotate"]:
         node = nodes[idx % len(nodes)]
@@ -67,7 +83,7 @@ def _check_rotation(ctx, case):
             if snapshot(nodes) != snap:
                 return ctx.fail(("rotate", "root-changed"), case, "rotating the root changed links")
             continue
-        ctx.nontriv((case["shape"], tuple(case["rotate"]), family))
+        ctx.nontriv((case["shape"], tuple(case["rotate"]), family, case.get("twin")))
         new_root = node if grand is None else r
         aud = S.link_audit(new_root, nodes)
         if aud:
@@ -174,15 +190,30 @@ def run(ctx):
                 for idx in range(n):
                     ctx.count("evaluations")
                     check_rotation(ctx, {"shape": text, "family": family, "rotate": [idx]})
+    max_t = 6 if ctx.tier == "quick" else 8
+    for n in range(1, max_t + 1):
+        for i, sh in enumerate(S.shapes_exact(n)):
+            if i % ctx.nshards != ctx.shard:
+                continue
+            text = S.to_text(sh)
+            for family in ("plain", "math"):
+                for side in ("L", "R"):
+                    for idx in range(2 * n + 1):
+                        ctx.count("evaluations")
+                        check_rotation(ctx, {"shape": text, "family": family, "rotate": [idx], "twin": side})
     ctx.info["exhaustive"] = True
-    ctx.info["exhaustive_bound"] = f"all shapes with <= {max_n} nodes x every node, both class families (single rotation)"
+    ctx.info["exhaustive_bound"] = (
+        f"all shapes with <= {max_n} nodes x every node, both class families (single rotation); "
+        f"all shapes with <= {max_t} nodes joined with their own clone (equal ids in both halves) x every node of the {2 * max_t + 1}-node tree"
+    )
     from hypothesis import strategies as st
 
     strat = st.builds(
-        lambda s, f, r: {"shape": s, "family": f, "rotate": r},
+        lambda s, f, r, t: {"shape": s, "family": f, "rotate": r, **({"twin": t} if t else {})},
         S.shape_strategy(60, 2),
         st.sampled_from(["plain", "math"]),
-        st.lists(st.integers(0, 59), min_size=1, max_size=6),
+        st.lists(st.integers(0, 120), min_size=1, max_size=6),
+        st.sampled_from([None, None, "L", "R"]),
     )
     hyp_run(ctx, "random-rotation-sequences", strat, check_rotation, ctx.n(1500, 8000))
     # the associative regrouping rule is a rotation (anchored in rules/associative_swap.py): every applicable node of the
